@@ -84,13 +84,13 @@ func pow(k, n int) int64 {
 // byteAlphabet: one representative of every class the scanner distinguishes plus every
 // trouble-maker. a: letter, e: letter that is also the exponent marker, 1: digit, then the
 // characters with a meaning of their own, blank, LF, NUL (the EOF sentinel), 0xFF (invalid UTF-8),
-// × (alias of *), ² (superscript, expands to two tokens).
+// × (alias of *), ² (superscript, expands to two tokens), ÷ (alias of /, the character that also starts comments).
 var byteAlphabet = []string{"a", "e", "1", ".", "\"", "'", "\\", "/", "*", "-", ">", "=", "<", "(", ")", "[", "]", "{", "}", ",", ":", ";",
-	" ", "\n", "\x00", "\xff", "×", "²"}
+	" ", "\n", "\x00", "\xff", "×", "²", "÷"}
 
 // reducedAlphabet drops five of the nine bracket/punctuation symbols (kept: ( ) [ ,).
 var reducedAlphabet = []string{"a", "e", "1", ".", "\"", "'", "\\", "/", "*", "-", ">", "=", "<", "(", ")", "[", ",",
-	" ", "\n", "\x00", "\xff", "×", "²"}
+	" ", "\n", "\x00", "\xff", "×", "²", "÷"}
 
 func bytesSrc(alpha []string, i int64, buf *[]int) string {
 	*buf = decodeSeq(i, len(alpha), *buf)
@@ -246,6 +246,9 @@ var openers = []opener{
 	{"\"", "a", "\""}, {"/*", "a", "*/"}, {"'", "a", "'"}, {"[[", "1", "]]"}, {"a[", "1", "]"}, {"a(", "1", ")"},
 	// sequential rather than nested repetition: the loops of parseOp, parseNonOperator, parseArgs,
 	// parseLet, and long runs of comments and string escapes
+	// nested closures with a reference to a name the inner closures do not declare (an outer argument,
+	// an undeclared name): name resolution walks all enclosing scopes
+	{"b->", "a", ""}, {"b->", "x", ""}, {"b->", "b+a*x", ""}, {"(b,c)->", "abs(a)", ""},
 	{"a+", "a", ""}, {"a.m", "", ""}, {"let x=1;", "x", ""}, {"func f(x) x;", "1", ""}, {"[1,", "1", "]"}, {"//c\n", "1", ""}, {"\"\\\"", "", "\""},
 }
 
